@@ -5,6 +5,7 @@ import (
 
 	"verifharness/internal/eng"
 	"verifharness/internal/rec"
+	"verifharness/internal/sched"
 )
 
 func init() {
@@ -13,6 +14,20 @@ func init() {
 		Count: func(tier string) int { return len(c05cases(tier)) },
 		Run: func(out *rec.Out, idx int, rng *rec.Rng, tier string, stats map[string]int) {
 			c05run(out, c05cases(tier)[idx], rng, stats)
+		},
+	}
+	// direct branches: activated branches run straight from the fork to the join with no activity in between, so the
+	// join's first arrival races the tracker's processing of the fork's own flow trace; repeated runs, half perturbed
+	caseFamilies["c05d"] = &caseFamily{
+		Shard: 1, Par: 12,
+		Count: func(tier string) int {
+			if tier == "thorough" {
+				return 600
+			}
+			return 60
+		},
+		Run: func(out *rec.Out, idx int, rng *rec.Rng, tier string, stats map[string]int) {
+			c05direct(out, idx, rng, stats)
 		},
 	}
 	// nested variants: forks inside inclusive branches and inclusive blocks inside parallel branches
@@ -171,6 +186,68 @@ func c05run(out *rec.Out, c c05case, rng *rec.Rng, stats map[string]int) {
 			break
 		}
 		in.AnswerOK(rest[0], nil)
+	}
+	complete := in.WaitComplete(300 * timeMillisecond)
+	in.Quiesce(2 * timeSecond)
+	for _, l := range in.Lines() {
+		out.Line("%s", l)
+	}
+	out.Line("obs final complete=%d vars=%s", rec.B(complete), in.Vars())
+	in.Stop(2 * timeSecond)
+}
+
+// start → A → inclusive fork I → c direct flows (all conditions true) [+ optionally one branch with a task] → join J → Z → end
+func c05direct(out *rec.Out, idx int, rng *rec.Rng, stats map[string]int) {
+	c := 2 + idx%3
+	withTask := (idx/3)%3 == 0
+	g := eng.NewGraph()
+	st := g.Add("startEvent", "start", "")
+	fork := g.Add("inclusiveGateway", "I", "")
+	join := g.Add("inclusiveGateway", "J", "")
+	z := g.Add("task", "Z", "")
+	en := g.Add("endEvent", "end", "")
+	g.Connect(st, fork, nil)
+	for j := 0; j < c; j++ {
+		g.Connect(fork, join, &eng.Cond{Op: "true"})
+	}
+	if withTask {
+		b := g.Add("task", "B", "")
+		g.Connect(fork, b, &eng.Cond{Op: "true"})
+		g.Connect(b, join, nil)
+	}
+	g.Connect(join, z, nil)
+	g.Connect(z, en, nil)
+	if sh := rng.Fork(); sh.Intn(2) == 0 {
+		g.ShuffleDecl(sh.Intn)
+	}
+	out.Begin("c05d", c, rec.B(withTask))
+	defer out.End()
+	if idx%2 == 1 {
+		ctl := sched.Install()
+		ctl.Perturb(rng.U64(), 1+(idx/2)%2)
+		defer ctl.Remove()
+		stats["perturbed_cases"]++
+	}
+	in, defs, err := eng.Start(g.XML(), nil)
+	if err != nil {
+		out.Line("harness-error %v", err)
+		return
+	}
+	for _, l := range eng.ProgLines(&(*defs.Processes())[0], g.CondRPN) {
+		out.Line("prog %s", l)
+	}
+	out.Line("prog vars -")
+	stats["cases"]++
+	for steps := 0; steps < 12; steps++ {
+		if !in.Quiesce(4 * timeSecond) {
+			in.Note("obs noquiesce")
+			break
+		}
+		p := in.Pending()
+		if len(p) == 0 {
+			break
+		}
+		in.AnswerOK(p[0], nil)
 	}
 	complete := in.WaitComplete(300 * timeMillisecond)
 	in.Quiesce(2 * timeSecond)
